@@ -10,6 +10,9 @@
 #include <vector>
 
 class WorkerQueue {
+#ifdef LIBCSD_VERIF
+  friend struct libcsd_verif_access;
+#endif
   std::mutex mutex;
   std::deque<std::function<void()>> q;
 
@@ -33,6 +36,9 @@ public:
 };
 
 class Worker {
+#ifdef LIBCSD_VERIF
+  friend struct libcsd_verif_access;
+#endif
   WorkerQueue &queue;
   std::mutex &shared_mutex;
   std::condition_variable &queue_cv;
@@ -89,6 +95,9 @@ private:
 };
 
 class WorkerPool {
+#ifdef LIBCSD_VERIF
+  friend struct libcsd_verif_access;
+#endif
   WorkerQueue queue;
   std::vector<std::unique_ptr<Worker>> workers;
 
